@@ -44,6 +44,22 @@ void h_zero_frequencies(void)
 	CHECK(rc == 0 || rc == -1, "returns 0 or -1");
     }
 #endif
+#ifdef ZERO_ADD
+    {	/* a standard added AFTER the (empty) frequency vector was given: its range check must not read the vector */
+	double complex *mvec = malloc(0);
+	double complex *m[1] = { mvec };
+	double pf[2] = { 1.0e9, 2.0e9 };
+	double complex pg[2] = { -1.0, -1.0 };
+	int p = vnacal_make_vector_parameter(vcp, pf, 2, pg);
+
+	ASSUME(mvec != NULL && p >= 0);
+	rc = vnacal_new_add_single_reflect_m(vnp, m, 1, 1, p, 1);
+	REACH("add after an empty frequency vector returned");
+	CHECK(rc == 0 || rc == -1, "returns 0 or -1");
+	free(mvec);
+	(void)vnacal_delete_parameter(vcp, p);
+    }
+#endif
     free(fv);
     vnacal_new_free(vnp);
     vnacal_free(vcp);
@@ -112,6 +128,10 @@ void h_add_scenario(void)
     type = VNACAL_T8; rows = 3; cols = 3;
 #elif SCENARIO == 21
     type = VNACAL_UE14; rows = 3; cols = 3;
+#elif SCENARIO == 22
+    type = VNACAL_T16; rows = 1; cols = 2;
+#elif SCENARIO == 23
+    type = VNACAL_U16; rows = 2; cols = 1;
 #endif
     ghost_err_reset();
     vcp = vnacal_create(verif_error_fn, NULL);
@@ -163,6 +183,8 @@ void h_add_scenario(void)
 #elif SCENARIO == 20		/* ... and on ports (3,2) */
     rc = vnacal_new_add_double_reflect_m(vnp, m, 2, 2, VNACAL_SHORT, VNACAL_OPEN, 3, 2);
     expect_ok = 1;
+#elif SCENARIO == 22 || SCENARIO == 23	/* 1x2 T16 (2x1 U16), full 2x2 S without port map, m given as 2x2: more rows (columns) than the calibration has */
+    rc = vnacal_new_add_mapped_matrix_m(vnp, m, 2, 2, s_full, 2, 2, NULL);
 #elif SCENARIO == 15		/* T8 2x2, S given as 2x1 (second column unknown to the caller): accepted or refused, never a crash */
     rc = vnacal_new_add_mapped_matrix_m(vnp, m, 2, 2, s_full, 2, 1, map12);
     expect_ok = -1;
